@@ -138,16 +138,16 @@ Qed.
 (* ---------- remove ---------- *)
 
 (* removing a path from a member yields a member of the type-level removal, and the type-level removal
-   does not hit its arithmetic-overflow panic — for paths whose last segment is a field (or the root),
-   with compaction off or a single segment, inside rm_ok.
-   FULL STATEMENT NOT PROVED: the same for a last segment that is an index (element removal through
-   Collection<Index>::remove_shift, inside shift_ok) — exercised by the correspondence/oracle run only. *)
-Theorem C19_remove_sound_fields_partial : forall (v : value) (k : kind) (p : path) (compact : bool),
-  wf_value v = true -> last_field p = true -> remove_ok k p compact = true -> member v k = true ->
+   does not hit its arithmetic-overflow panic — all well-formed values, all kinds and paths in remove_ok:
+   compaction off or a single segment; an element removal has at most one known element behind it
+   (shift_ok); segments before the last one are known (or cannot exist); negative indices only into
+   arrays of exactly known length *)
+Theorem C19_remove_sound : forall (v : value) (k : kind) (p : path) (compact : bool),
+  wf_value v = true -> remove_ok k p compact = true -> member v k = true ->
   snd (kremove k p compact) = false
   /\ member (snd (remove v p compact)) (fst (fst (kremove k p compact))) = true.
-Proof. exact remove_sound_fields. Qed.
-Print Assumptions C19_remove_sound_fields_partial.
+Proof. exact remove_sound. Qed.
+Print Assumptions C19_remove_sound.
 
 (* del(x[0]) on [1, "a", true]: remove_shift moves only one element *)
 Theorem C19_remove_shift_refuted : exists (v : value) (k : kind) (p : path),
@@ -221,5 +221,8 @@ Example C19_domains_nonvacuous :
   /\ ins_ok false obj [SField (hx "7a"); SIndex 2] = true
   /\ union_compat obj (k_object (mkC [(hx "62", int)] (UExact k_undefined))) = true
   /\ union_compat k_json (k_array (mkC [(0%nat, int)] (UExact k_undefined))) = true
-  /\ no_exact_any obj = true /\ is_superset (k_object coll_any) obj = true.
+  /\ no_exact_any obj = true /\ is_superset (k_object coll_any) obj = true
+  /\ remove_ok obj [SField (hx "61"); SIndex (-1)] false = true
+  /\ remove_ok obj [SField (hx "7a")] true = true
+  /\ remove_ok arr [SIndex 0] true = true.
 Proof. vm_compute. repeat split; reflexivity. Qed.
